@@ -89,7 +89,7 @@ def sweep(tier):
             for final in (False, True):
                 for T in (1, 16):
                     a = dict(c19._case(n, initial, final, 0, ('i8', 'i8')), threads=T)
-                    yield {'kind': 'arena', 'kernel': 'util.cumsum', 'args': a, 'arena_bytes': 20 * n + (1 << 16)}
+                    yield {'kind': 'arena', 'kernel': 'util.cumsum', 'args': a, 'arena_bytes': 36 * n + (1 << 16)}
     gs = list(K.all_grid())
     for i in range(0, len(gs), 60):
         yield {'kind': 'bc', 'cases': [{'kernel': K.GRID_KERNEL[g['kind']], 'args': g} for g in gs[i:i + 60]]}
